@@ -48,6 +48,11 @@ def sh(cmd, cwd=None, env=None, timeout=None, check=True, capture=True):
     return p
 
 
+DOMAIN_ERR_RE = re.compile(r"Attempted to (access index|apply function|select field|access field|apply tuple)|is not in the domain|which is out of bounds|"
+                           r"Attempted to compute the value of an expression of form CHOOSE")
+HARD_ERR_RE = re.compile(r"OutOfMemoryError|StackOverflowError|java\.io\.|Cannot find source file|Parsing or semantic analysis failed")
+
+
 def _ev_of(line):
     try:
         return json.loads(line).get("ev")
@@ -264,6 +269,18 @@ class Run:
                         log("WARNING: %s stopped early on %s after %d REJECT(s); keeping them" % (module, os.path.basename(chunk), len(rej)))
                         rejects.extend(rej)
                         rejects.append({"name": "%s.trace.evaluation-stopped-early" % self.pid, "line": 0, "key": os.path.basename(chunk), "chunk": chunk})
+                        continue
+                    dom = DOMAIN_ERR_RE.search(out)
+                    if dom and not HARD_ERR_RE.search(out):
+                        # The trace specification could not evaluate a recorded observation: a value outside every table /
+                        # tuple / function domain the specification knows (e.g. month 0).  The observation is real behaviour
+                        # of the code and no action of the specification explains it: the trace is rejected at that line.
+                        ls = re.findall(r"/\\ l = (\d+)", out)
+                        ln = int(ls[-1]) if ls else 0
+                        what = " ".join(out[dom.start():dom.start() + 400].split())[:240]
+                        log("%s could not evaluate line %d of %s: %s" % (module, ln, os.path.basename(chunk), what))
+                        rejects.append({"name": "%s.observation-outside-specified-domain" % self.pid, "line": ln,
+                                        "key": "<<%s, %d, %s>>" % (json.dumps(os.path.basename(chunk)), ln, json.dumps(what)), "chunk": chunk})
                         continue
                     raise Infra("trace validation of %s by %s did not finish:\n%s" % (chunk, module, out[-3000:]))
                 if done[0] != done[1]:
